@@ -237,10 +237,10 @@ func caseLines(o *outcome) []string {
 	begin := "begin mode=rcm"
 	if c.Mode == "rm" {
 		begin = "begin mode=rm"
-	} else if c.Grace != "none" && c.Grace != "" {
-		begin += fmt.Sprintf(" grace=%d recheck=1", graceUnits)
+	} else if c.Grace != "none" && c.Grace != "" && c.Mode == "rcm" {
+		begin += fmt.Sprintf(" grace=%d", graceUnits)
 	} else {
-		begin += " grace=none recheck=1"
+		begin += " grace=none"
 	}
 	lines := []string{begin}
 	for _, e := range o.Log {
@@ -285,7 +285,7 @@ func (rn *runner) one(c Case, d *lib.Drv) {
 			nStart++
 		}
 	}
-	res.Count(c.Key(), nStart > 0 || c.CloseBefore > 0)
+	res.Count(c.Key(), nStart > 0 || c.CloseBefore > 0 || c.Mode == "addstress")
 	res.Sample(map[string]any{"case": c, "log_len": len(o.Log)})
 	res.Hit("mode:" + c.Mode)
 	res.Hit(fmt.Sprintf("runners:%d", len(c.Runners)))
@@ -335,8 +335,8 @@ func (rn *runner) one(c Case, d *lib.Drv) {
 		switch e.E {
 		case "fatal", "run.rej", "ac.rej", "ac.ok", "pcancel", "r.done":
 			res.Hit("event:" + e.E)
-		case "add":
-			res.Hit(fmt.Sprintf("event:add-ok=%v", e.OK))
+		case "add.ok", "add.rej":
+			res.Hit("event:" + e.E)
 		case "run.ret":
 			res.Hit(fmt.Sprintf("run-errors:%d", len(e.Errs)))
 		}
@@ -363,7 +363,12 @@ func (rn *runner) one(c Case, d *lib.Drv) {
 	for _, f := range monitor(o) {
 		res.Violate(f.ID, f.What, map[string]any{"case": c, "log": o.Log})
 	}
-	if d != nil {
+	for k, v := range o.Stats {
+		for i := 0; i < v; i++ {
+			res.Hit("add-vs-run-stress:" + k)
+		}
+	}
+	if d != nil && c.Mode != "addstress" {
 		lines := caseLines(o)
 		outs, err := d.AskBatch(lines)
 		if err != nil {
@@ -381,6 +386,48 @@ func (rn *runner) one(c Case, d *lib.Drv) {
 			}
 		}
 	}
+}
+
+// shapeOf maps the harness's closer kinds to the type-switch cases of AddCloser as factgen_c12
+// extracted them from the source (spaces written as '_' on the wire).
+var shapeOf = map[string]string{"io": "io.Closer", "ctxerr": "func(context.Context)_error", "funcerr": "func()_error", "func": "func()"}
+
+// checkFacts asks the driver which closer shapes the current source accepts (T1 facts) and
+// reports a broken tie when the harness does not exercise exactly those.
+func checkFacts(drv string, res *lib.Result) {
+	d, err := lib.StartDrv(drv, "C12")
+	if err != nil || d == nil {
+		return
+	}
+	defer d.Close()
+	ans, err := d.Ask("facts")
+	if err != nil {
+		res.Note("kitdrv facts: " + err.Error())
+		return
+	}
+	got := map[string]bool{}
+	for _, w := range strings.Fields(ans) {
+		if strings.HasPrefix(w, "shapes=") {
+			for _, sh := range strings.Split(strings.TrimPrefix(w, "shapes="), "|") {
+				got[sh] = true
+			}
+		}
+	}
+	want := map[string]bool{}
+	for _, t := range closerTypes {
+		want[shapeOf[t]] = true
+	}
+	for sh := range got {
+		if !want[sh] {
+			res.Disagree("T1 facts: closer shapes accepted by AddCloser = shapes the harness exercises", ans, "source accepts "+sh, "harness has no closer of that shape")
+		}
+	}
+	for sh := range want {
+		if !got[sh] {
+			res.Disagree("T1 facts: closer shapes accepted by AddCloser = shapes the harness exercises", ans, "source does not accept "+sh, "harness exercises it")
+		}
+	}
+	res.Note("facts: " + ans)
 }
 
 func main() {
@@ -406,7 +453,7 @@ func main() {
 		}
 		d, _ := lib.StartDrv(f.Drv, "C12")
 		n := 1
-		if rp.Case.Case.Mode == "acrace" {
+		if m := rp.Case.Case.Mode; m == "acrace" || m == "addrace" {
 			n = 3
 		}
 		for i := 0; i < n; i++ {
@@ -418,6 +465,7 @@ func main() {
 		return
 	}
 
+	checkFacts(f.Drv, res)
 	var jobs []job
 	add := func(c Case) { jobs = append(jobs, job{c: c}) }
 	r := lib.NewRand(f.Seed*0x9e3779b97f4a7c15 + 12)
@@ -435,6 +483,8 @@ func main() {
 	// directed: the window between AddCloser's closing check and its lock acquisition
 	for i := 0; i < nRace; i++ {
 		add(Case{Mode: "acrace", Junk: 150000 + 100000*i})
+		add(Case{Mode: "addrace", Junk: 150000 + 100000*i})
+		add(Case{Mode: "addstress", Junk: 60000})
 	}
 	enumCore("rcm", coreR, coreC, add)
 	enumCore("rm", rmR, 0, add)
@@ -467,7 +517,7 @@ func main() {
 	var rest []job
 	d0, _ := lib.StartDrv(f.Drv, "C12")
 	for _, j := range jobs {
-		if j.c.Mode == "acrace" {
+		if m := j.c.Mode; m == "acrace" || m == "addrace" || m == "addstress" {
 			rn.one(j.c, d0)
 		} else {
 			rest = append(rest, j)
